@@ -81,6 +81,9 @@ type Server struct {
 	// Timeout for one answer (a hang verdict is left to the parent watchdog;
 	// this only prevents a worker from blocking for ever).
 	Timeout time.Duration
+	// direct mode: handlers are called as methods on the calling goroutine (see direct.go)
+	direct bool
+	l      *langserver.LspServer
 }
 
 // Options of a start.
@@ -325,6 +328,9 @@ func (e *RPCError) Error() string { return fmt.Sprintf("rpc error %d: %s", e.Cod
 
 // Call sends a request and decodes the result.
 func (s *Server) Call(method string, params interface{}, result interface{}) error {
+	if s.direct {
+		return s.directCall(method, params, result)
+	}
 	s.nextID++
 	id := s.nextID
 	if err := s.send(map[string]interface{}{"jsonrpc": "2.0", "id": id, "method": method, "params": params}); err != nil {
@@ -352,6 +358,9 @@ func (s *Server) CallRaw(method string, params interface{}) (json.RawMessage, er
 
 // NotifyAsync sends a notification without waiting for its handler.
 func (s *Server) NotifyAsync(method string, params interface{}) error {
+	if s.direct {
+		return s.directCall(method, params, nil)
+	}
 	return s.send(map[string]interface{}{"jsonrpc": "2.0", "method": method, "params": params})
 }
 
@@ -359,6 +368,10 @@ func (s *Server) NotifyAsync(method string, params interface{}) error {
 // and all its pushes have been folded: an unknown-method request is
 // dispatched only after the notification barrier and has no handler.
 func (s *Server) Barrier() error {
+	if s.direct {
+		s.directFold()
+		return nil
+	}
 	err := s.Call("verif/barrier", map[string]interface{}{}, nil)
 	if e, ok := err.(*RPCError); ok && e.Code == -32601 {
 		return nil
